@@ -401,6 +401,7 @@ def run(ctx):  # noqa: C901, PLR0912, PLR0915
     ctx.ob('C19.R4', 'server wraps its socket', ok,
            'with a context the listening socket is wrapped (server side) before the https base url is published', fi=hr)
 
+    ctx.borrow('C08', {'C08.R5'}, 'C19.R2', contains=['connection and path agree', 'address'], why='the end message goes through the pooled TLS client')
     # ------------------------------------------------------------------ R5
     mc = repo.func('sdc11073.certloader.mk_ssl_contexts')
     g = cfg_of(mc)
